@@ -72,18 +72,16 @@ CallIp(o)     == \E k \in 1..MAXU : \E multi \in BOOLEAN : Call(o, k, multi, FAL
 CallB2b(o)    == \E k \in 1..MAXU : \E multi \in BOOLEAN : Call(o, k, multi, TRUE)
 Exp           == \E o \in OBJS : DoExport(o)
 
-Step ==
-  \/ ("a" \in OBJS /\ CallFree("a"))
-  \/ ("s" \in OBJS /\ CallSingle("s"))
-  \/ ("p" \in OBJS /\ CallIp("p"))
-  \/ ("q" \in OBJS /\ CallB2b("q"))
-  \/ Exp
-
 Done(ob, pe) == \A o \in OBJS : Len(ob[o].inp) \div Unit = MAXU /\ ~pe[o]
+Frame == fin' = Done(objs', pend') /\ UNCHANGED kd
 
-Next == /\ Step
-        /\ fin' = Done(objs', pend')
-        /\ UNCHANGED kd
+ActA   == "a" \in OBJS /\ CallFree("a") /\ Frame
+ActS   == "s" \in OBJS /\ CallSingle("s") /\ Frame
+ActP   == "p" \in OBJS /\ CallIp("p") /\ Frame
+ActQ   == "q" \in OBJS /\ CallB2b("q") /\ Frame
+ActExp == Exp /\ Frame
+
+Next == ActA \/ ActS \/ ActP \/ ActQ \/ ActExp
 
 Spec == Init /\ [][Next]_vars
 
@@ -95,7 +93,13 @@ NewCmd(o) == [op |-> "new", o |-> o, fac |-> FacName(WidthOf(o)), kind |-> Kind,
 RECURSIVE CatAll(_, _)
 CatAll(S, f) == IF S = {} THEN <<>> ELSE LET o == CHOOSE x \in S : TRUE IN f[o] \o CatAll(S \ {o}, f)
 ReplayRec == [prop |-> PROP, cmds |-> CatAll(OBJS, [o \in OBJS |-> <<NewCmd(o)>>]) \o CatAll(OBJS, sch)]
-EmitReplay == fin => PrintT(<<"REPLAY", ToJson(ReplayRec)>>)
+(* for the in-place / buffer-to-buffer pair only behaviours in which both made the same calls are worth replaying *)
+SameShape(x, y) == /\ Len(sch[x]) = Len(sch[y])
+                   /\ \A i \in 1..Len(sch[x]) :
+                        /\ sch[x][i].op = sch[y][i].op
+                        /\ sch[x][i].op = "blocks" => (sch[x][i].n = sch[y][i].n /\ sch[x][i].multi = sch[y][i].multi)
+ReplayWorthy == ("p" \in OBJS /\ "q" \in OBJS) => SameShape("p", "q")
+EmitReplay == (fin /\ ReplayWorthy) => PrintT(<<"REPLAY", ToJson(ReplayRec)>>)
 
 (* the history of calls is observation only: identical object states reached by different interleavings are one state *)
 View == <<objs, last, ks, ksbad, dbg, fin, ist, pend, kd, sch>>
